@@ -442,7 +442,7 @@ fn observe_c10(w: &mut World, cx: &mut Ctx) -> R {
 
 fn observe_c12(w: &World, cx: &mut Ctx) -> R {
     let want = w.model.status();
-    let names = ["Won", "Drawn", "Ongoing"];
+    let names = ["Won", "Drawn", "Ongoing", "Other"];
     match guard(|| w.real.status()) {
         Ok(s) => {
             let got = status_code(s);
